@@ -612,11 +612,12 @@ def c17(tier, sc):
     for c in cases:
         items.append({"in": c["in"], "ctx": 0})
         items.append({"in": c["reduced"], "ctx": 0})
+        items.append({"in": (vgen.b("<a ") if c["kind"] == "quoted" else []) + c["rest"], "ctx": 0})
     res = vlib.harness_map(sc, vh, "xss-toks", items)
     n1 = 0
     for i, c in enumerate(cases):
-        a, b = res[2 * i], res[2 * i + 1]
-        if bad_result(a) or bad_result(b):
+        a, b, rst = res[3 * i], res[3 * i + 1], res[3 * i + 2]
+        if bad_result(a) or bad_result(b) or bad_result(rst):
             continue
         n1 += 1
         idx = c["idx"] - 1
@@ -627,6 +628,12 @@ def c17(tier, sc):
             red = (b["toks"] or [])[idx + 1:]
             shift = c["tok"][2]
             ok = rest == [[t[0], t[1] + shift, t[2]] for t in red]
+            if ok and c["kind"] != "quoted":
+                # constructs that return to the data state: the stream after the terminator is that of the rest alone
+                ok = rest == [[t[0], t[1] + c["resume"], t[2]] for t in (rst["toks"] or [])]
+            elif ok:
+                # after a quoted value the tag goes on exactly as after "<a "
+                ok = rest == [[t[0], t[1] + c["resume"] - 3, t[2]] for t in (rst["toks"] or [])[1:]]
         if not ok:
             rep.violation("construct %s in %r: token must be %s (first terminator) and tokenizing must resume at %d; real tokens %s, reduced-input tokens %s" % (
                 c["kind"], show(c["in"]), c["tok"], c["resume"], toks[:6], (b["toks"] or [])[:6]),
